@@ -1,1 +1,164 @@
-/-! C19 property theorems about HTAB (none yet). -/
+import MirVerif.Lemmas.HtabRefine
+import MirVerif.Lemmas.HtabConserve
+import MirVerif.Lemmas.HtabArr
+import MirVerif.Lemmas.Lcg
+/-!
+# C19, HTAB part — property theorems
+
+Model: `MirVerif.Model.Htab` (a statement-by-statement model of `mir-htab.h`, tied to the header by
+the correspondence check `checks/c19_htab.py`).  Abstract map: `MirVerif.Model.HtabSpec`.
+
+All theorems are universally quantified over the element type, the hash function `hf`, the equality
+`eq` (subject to `Laws`: `eq` symmetric + transitive, equal elements hash equally), the `min_size`
+argument of `HTAB_CREATE` and **all operation histories**.
+
+What is *not* covered by these theorems (checked only by the correspondence runs, or assumed):
+* that the C header behaves like the model (the tie; see `checks/c19_htab.py`);
+* memory management of the two `VARR`s (ASan/UBSan/LSan runs of the harness);
+* `htab_size_t` overflow: tables with 2^31 or more entries, `min_size > 2^31` (the size loop of
+  `HTAB_CREATE` would not terminate in C; the model stops after 30 doublings);
+* a NULL `free_func` (then simply no call is made) and `HTAB_DESTROY` (= `clear` + freeing memory).
+-/
+namespace MirVerif.Props.C19
+
+open MirVerif.Htab
+
+variable {α : Type}
+
+/-- The probe sequence of `mir-htab.h` after `peterb` has been shifted out,
+`ind ↦ (5·ind + 1) & (2^k − 1)`, reaches every slot from every start within `2^k` probes. -/
+theorem probe_full_period (k x t : Nat) (hx : x < 2 ^ k) (ht : t < 2 ^ k) :
+    ∃ n, n < 2 ^ k ∧ lcgIter (2 ^ k) n x = t :=
+  MirVerif.Lcg.full_period k x t hx ht
+
+/-- The first `size + 3` probes of any 32-bit hash visit every slot of a table with `size = 2^k`
+entries (the first three probes still mix in `peterb`; then the generator has full period). -/
+theorem probe_path_covers (k h p : Nat) (hh : h < 2 ^ 32) (hp : p < 2 ^ k) : p ∈ path (2 ^ k) h :=
+  path_covers MirVerif.Lcg.full_period k h p hh hp
+
+/-- **Termination is proved, not assumed**: in a well-formed table the probing loop of `HTAB_DO`
+ends (finds the element or reaches an empty slot) within the `size + 3` probes the model allows;
+the out-of-fuel result of the model is unreachable. -/
+theorem scan_fuel_enough (hf : α → Nat) (eq : α → α → Bool) (t : Tab α) (hwf : WF hf eq t) (x : α) :
+    scan eq t (hashOf hf x) x (fuelFor t) (hashOf hf x &&& (t.entries.length - 1)) (hashOf hf x)
+      none 0 ≠ .noFuel :=
+  lookup_ne_noFuel MirVerif.Lcg.full_period hwf x
+
+/-- The invariant `WF` (indices valid and injective; every live element referenced by a slot that
+lies on its probe path with no empty slot before it — tombstones never cut a chain —; stored hashes
+correct; live elements pairwise different; `els_num` exact; at least half of the entries empty;
+sizes are powers of two with `entries = 2·els`) holds after `HTAB_CREATE` … -/
+theorem htab_wf_create (hf : α → Nat) (eq : α → α → Bool) (minSize : Nat) :
+    WF hf eq (create minSize : Tab α) :=
+  (create_spec minSize).1
+
+/-- … and is preserved by every operation: `HTAB_DO` with any of the four actions (including the
+rebuild of a full table, which re-inserts every live element) and `HTAB_CLEAR`. -/
+theorem htab_wf_step (hf : α → Nat) (eq : α → α → Bool) (laws : Laws hf eq) (t : Tab α)
+    (hwf : WF hf eq t) (o : Op α) : WF hf eq (step hf eq t o).1 :=
+  (step_spec MirVerif.Lcg.full_period laws hwf o).1
+
+/-- In a well-formed table at least half of the entries are empty (`#non-empty ≤ els_bound ≤
+els_size = size / 2`), so probe chains stay short and an empty slot always exists. -/
+theorem htab_half_empty (hf : α → Nat) (eq : α → α → Bool) (t : Tab α) (hwf : WF hf eq t) :
+    t.entries.length ≤ 2 * t.entries.count .empty := by
+  have h1 := hwf.empties
+  have h2 := hwf.els_le
+  have h3 := hwf.ent_len
+  omega
+
+/-- One `HTAB_DO` on any well-formed table returns the flag and the element the abstract map returns,
+calls `free_func` on exactly the element the map drops, and leaves the table representing the map's
+new content (same elements, same order). -/
+theorem htab_do_refines (hf : α → Nat) (eq : α → α → Bool) (laws : Laws hf eq) (t : Tab α)
+    (hwf : WF hf eq t) (x : α) (a : Action) :
+    (doOp hf eq t x a).2 = (Spec.doOp eq (contents t) x a).2 ∧
+    contents (doOp hf eq t x a).1 = (Spec.doOp eq (contents t) x a).1 :=
+  let h := doOp_spec MirVerif.Lcg.full_period laws hwf x a
+  ⟨h.2.2, h.2.1⟩
+
+/-- **Refinement.**  For every `min_size` and every sequence of operations
+(`HTAB_DO` find/insert/replace/delete, `HTAB_CLEAR`) on a freshly created table, the list of
+observations — returned flag, element written to `*res`, arguments of the `free_func` calls,
+`HTAB_ELS_NUM` and the `HTAB_FOREACH_ELEM` sequence after each operation — equals the list of
+observations of the abstract map started empty; the final table represents the final map and is
+well formed (so the statement extends to any continuation). -/
+theorem htab_refines_map (hf : α → Nat) (eq : α → α → Bool) (laws : Laws hf eq) (minSize : Nat)
+    (ops : List (Op α)) :
+    (run hf eq (create minSize) ops).2 = (Spec.run eq [] ops).2 ∧
+    contents (run hf eq (create minSize) ops).1 = (Spec.run eq [] ops).1 ∧
+    WF hf eq (run hf eq (create minSize) ops).1 :=
+  let h := run_spec MirVerif.Lcg.full_period laws ops (create minSize) (create_spec minSize).1
+  ⟨h.2.2, h.2.1, h.1⟩
+
+/-- **`free_func` is called exactly once per dropped element.**  Over any history the multiset of
+elements that were stored into the table (INSERT of an absent element, every REPLACE) equals the
+multiset of elements still in the table plus the multiset of all `free_func` arguments. -/
+theorem htab_free_once (hf : α → Nat) (eq : α → α → Bool) (laws : Laws hf eq) (minSize : Nat)
+    (ops : List (Op α)) :
+    (storedBy (run hf eq (create minSize) ops).2 ops).Perm
+      (contents (run hf eq (create minSize) ops).1 ++ freedBy (run hf eq (create minSize) ops).2) := by
+  obtain ⟨h1, h2, -⟩ := htab_refines_map hf eq laws minSize ops
+  rw [h1, h2]
+  simpa using spec_conservation eq ops []
+
+/-- The executable that the correspondence check runs against the real header (`mirdrv_c19`, which
+keeps the two arrays in `Array`s: `runA`/`createA` of `Model/HtabArr.lean`) produces, for every
+history, exactly the observations of the abstract map; its final state is a well-formed table
+representing the final map.  (So the tie compares the real header with something that provably
+behaves like the map.) -/
+theorem htab_driver_refines_map (hf : α → Nat) (eq : α → α → Bool) (laws : Laws hf eq) (minSize : Nat)
+    (ops : List (Op α)) :
+    (runA hf eq (createA minSize) ops).2 = (Spec.run eq [] ops).2 ∧
+    contentsA (runA hf eq (createA minSize) ops).1 = (Spec.run eq [] ops).1 ∧
+    WF hf eq (runA hf eq (createA minSize) ops).1.toTab := by
+  have h := htab_refines_map hf eq laws minSize ops
+  rw [createA_eq, runA_toTab] at h
+  exact h
+
+/-! ### non-vacuity: the hypotheses are satisfiable by concrete, non-trivial instances -/
+
+section Examples
+
+/-- elements `(key, payload)`; equality on the key; a hash that collides a lot -/
+def exEq (a b : Nat × Nat) : Bool := a.1 == b.1
+def exHf (a : Nat × Nat) : Nat := a.1 % 2
+
+theorem exLaws : Laws exHf exEq := by
+  constructor
+  · intro a b h; simp [exEq] at *; omega
+  · intro a b c h1 h2; simp [exEq] at *; omega
+  · intro a b h; simp [exEq] at h; unfold hashOf exHf; rw [h]
+
+/-- a history with collisions, a tombstone, re-insertion, replacement and two rebuilds -/
+def exOps : List (Op (Nat × Nat)) :=
+  [.act .insert (1, 10), .act .insert (3, 20), .act .insert (5, 30), .act .delete (3, 0),
+   .act .insert (7, 40), .act .replace (5, 50), .act .insert (3, 60), .act .insert (9, 70),
+   .act .find (7, 0)]
+
+/-- the table reached is non-trivial … -/
+example : contents (run exHf exEq (create 2) exOps).1 = [(1, 10), (5, 50), (7, 40), (3, 60), (9, 70)] := by
+  decide
+
+/-- … it grew twice, still holds a tombstone-free layout after the last rebuild … -/
+example : (run exHf exEq (create 2) exOps).1.cap = 8 := by decide
+
+/-- … and satisfies the invariant, so `htab_wf_step`, `htab_do_refines`, `scan_fuel_enough` apply -/
+example : WF exHf exEq (run exHf exEq (create 2) exOps).1 :=
+  (htab_refines_map exHf exEq exLaws 2 exOps).2.2
+
+/-- a well-formed table *with* a tombstone on a probe chain (before any rebuild) -/
+example : WF exHf exEq (run exHf exEq (create 8) (exOps.take 4)).1 ∧
+    (run exHf exEq (create 8) (exOps.take 4)).1.entries.count .deleted = 1 :=
+  ⟨(htab_refines_map exHf exEq exLaws 8 (exOps.take 4)).2.2, by decide⟩
+
+/-- the observations of the example history, as the abstract map gives them -/
+example : ((run exHf exEq (create 2) exOps).2.map (fun o => (o.out.found, o.out.res, o.out.freed))) =
+    [(false, some (1, 10), []), (false, some (3, 20), []), (false, some (5, 30), []),
+     (true, none, [(3, 20)]), (false, some (7, 40), []), (true, some (5, 50), [(5, 30)]),
+     (false, some (3, 60), []), (false, some (9, 70), []), (true, some (7, 40), [])] := by
+  decide
+
+end Examples
+
+end MirVerif.Props.C19
